@@ -1901,6 +1901,8 @@ pub fn f19() -> Vec<Case> {
         c.raw = Some(text);
         out.push(c);
     }
+    // MOD with a REAL operand: must be refused by the checker or evaluate (was: accepted, TypeMismatch)
+    out.push(raw("F19", "real-operand:MOD", "PROGRAM Main\nVAR r : REAL := 5.5; q : REAL; l : LREAL := 5.5; END_VAR\n    q := r MOD 2.0;\n    l := l MOD LREAL#2.0;\nEND_PROGRAM\n", 2));
     out.push(raw(
         "F19",
         "en-false:then-call-through-using",
